@@ -687,6 +687,9 @@ class Executor(Evaluator):
         if node is not None and isinstance(node.func, ast.Name) and node.func.id in cg and self.module is self.fi.module:
             for gname, gexpr in cg[node.func.id].items():
                 cenv[gname] = self.eval_spec(gexpr, st, {})
+        ch = getattr(self.cur_contract, "extra", {}).get("call_hints", {}) if self.cur_contract else {}
+        if node is not None and isinstance(node.func, ast.Name) and node.func.id in ch and self.module is self.fi.module:
+            self.apply_hints(st, ch[node.func.id], {})  # lemma / axiom instances needed by the callee's precondition
         # shape symbols of the callee are bound from the actual arrays
         genv = self.bind_shape_syms(con, cenv)
         pre = st.snapshot()
